@@ -701,7 +701,8 @@ class SAMIParser(HTMLParser):
             self.sami += f"</{closing_tag}>"
 
     def handle_entityref(self, name):
-        if name in ['gt', 'lt']:
+        if name in ['gt', 'lt', 'amp']:
+            # keep escaped: the result is parsed once more by BeautifulSoup
             self.sami += f'&{name};'
         else:
             try:
@@ -712,10 +713,11 @@ class SAMIParser(HTMLParser):
         self.last_element = ''
 
     def handle_charref(self, name):
+        # escape & < > again: the result is parsed once more by BeautifulSoup
         if name[0] == 'x':
-            self.sami += chr(int(name[1:], 16))
+            self.sami += escape(chr(int(name[1:], 16)))
         else:
-            self.sami += chr(int(name))
+            self.sami += escape(chr(int(name)))
 
     # override the parser's handling of data
     def handle_data(self, data):
